@@ -39,16 +39,16 @@ func init() {
 
 // subject: one model + two input sets + (optionally) a state-feedback wiring.
 type subject struct {
-	Name   string
-	Model  []byte
-	FeedA  map[string]*ref.T
-	FeedB  map[string]*ref.T
-	Chain  map[string]string // output name -> input name fed by it in a chained Run
-	Outs   []string
-	Tags   []string
-	expA   map[string]*ref.T
-	expB   map[string]*ref.T
-	cmp    hx.Cmp
+	Name  string
+	Model []byte
+	FeedA map[string]*ref.T
+	FeedB map[string]*ref.T
+	Chain map[string]string // output name -> input name fed by it in a chained Run
+	Outs  []string
+	Tags  []string
+	expA  map[string]*ref.T
+	expB  map[string]*ref.T
+	cmp   hx.Cmp
 }
 
 const (
